@@ -54,6 +54,12 @@ class FakeSock:
 
     def connect_ex(self, addr):
         self.remote_addr = addr
+        if tuple(addr) in getattr(self.node.net, "unreachable", ()):
+            # no route / interface down: the non-blocking connect fails AT ONCE (ENETUNREACH); the socket then reports
+            # readable and recv() raises, like a real one
+            self.refused = True
+            self.node.net.failed_connects.append(self)
+            return 101
         self.node.net.pending_connects.append(self)
         return 115
 
@@ -241,6 +247,8 @@ class Net:
     def __init__(self):
         self.nodes = {}
         self.pending_connects = []
+        self.failed_connects = []
+        self.unreachable = set()
         self.escaped = []           # exceptions that left a handler: in production they end LocalPeer.run()
         self.handled_messages = 0
 
